@@ -66,7 +66,7 @@ func (m *model) compute(name string) ([]byte, bool) {
 	if i > 0 && !m.ch[i-1].computed {
 		return nil, false
 	}
-	h := m.newH()
+	h := chunked{m.newH()}
 	// anything the hash refuses makes the challenge not computable (never the case for SHA-256 and for MiMC in its
 	// default byte order; a little-endian MiMC refuses names and previous values that are not canonical in that order)
 	if _, err := h.Write([]byte(name)); err != nil {
@@ -87,6 +87,38 @@ func (m *model) compute(name string) ([]byte, bool) {
 	m.ch[i].value = h.Sum(nil)
 	m.ch[i].computed = true
 	return append([]byte(nil), m.ch[i].value...), true
+}
+
+// chunked feeds a hash in pieces other than the ones the transcript uses: a value of several whole blocks goes in one
+// block at a time (MiMC-like hashes, for which only whole blocks and single short values are defined), anything else
+// in 7-byte pieces when the hash takes arbitrary bytes (SHA-256). The digest of a message does not depend on how it
+// was cut into writes, so the model stays a model of the same challenge.
+type chunked struct{ hash.Hash }
+
+func (c chunked) Write(p []byte) (int, error) {
+	bs := c.Hash.BlockSize()
+	field := c.Hash.Size() == bs && bs >= 32 && bs <= 96 // one field element in, one out
+	switch {
+	case field && len(p) > bs && len(p)%bs == 0:
+		for k := 0; k < len(p); k += bs {
+			if _, err := c.Hash.Write(p[k : k+bs]); err != nil {
+				return k, err
+			}
+		}
+		return len(p), nil
+	case !field && len(p) > 7:
+		for k := 0; k < len(p); k += 7 {
+			e := k + 7
+			if e > len(p) {
+				e = len(p)
+			}
+			if _, err := c.Hash.Write(p[k:e]); err != nil {
+				return k, err
+			}
+		}
+		return len(p), nil
+	}
+	return c.Hash.Write(p)
 }
 
 // ---- events ----
